@@ -29,6 +29,9 @@ CHECKS = {
     "C06": ("differential monitor: verdict of deserialize vs an independent JSON Schema validator (jsonschema, draft 2020-12) on the generated deserialization_schema, restricted to the common semantic domain; explanatory defect models for region-wide known findings",
             "Exploration: for generated (type, options, datum) the real deserialize must accept iff jsonschema validates the datum against the schema generated with the same options (additional_properties, aliaser, all_refs, per-call schema, std conversions); disagreements inside a known-bad region are attributed to the finding only when the explanatory model reproduces the observed outcome exactly.",
             "Trusted: jsonschema 4.26 validators and meta-schemas; generators keep patterns in the Python/ECMA common subset; data with integer-valued floats / duplicates at set positions / ill-formatted strings at format positions are outside the domain.", "DESIGN §5 C06"),
+    "C17": ("output monitor on *_schema / definitions_schema: dialect meta-schema validation (jsonschema), $ref closure / prefix walker, in-place reference-cycle detector, expected extraction set from use counts of the program spec, definitions_schema vs inline $defs, name-collision probes",
+            "Exploration: every schema generated for the generated programs x entry points x 5 versions x all_refs x ref_factory must validate against the meta-schema of the dialect it declares, have every $ref resolve (inline or in definitions_schema called with the same arguments), contain no reference cycle through in-place applicators, extract exactly the expected named types, and two classes sharing a type name must be refused.",
+            "Trusted: jsonschema's bundled meta-schemas; the walker's notion of sub-schema positions; the expected extraction set computed from the TypeSpec (walk stopping at already seen named types).", "DESIGN §5 C17"),
 }
 PLANNED = {
 }
